@@ -701,6 +701,19 @@ impl DtlsInner {
                                     is_client,
                                 )
                                 .await?;
+                            } else if msg.msg_type == HandshakeType::Finished && !is_client {
+                                // The client retransmitted its final flight, so our
+                                // ChangeCipherSpec + Finished was lost. We are already
+                                // Connected and the retransmit timer no longer runs, so
+                                // answer with the final flight again (RFC 6347 §4.2.4).
+                                let connected =
+                                    matches!(*self.state.lock(), DtlsState::Connected(..));
+                                if connected
+                                    && let Some(records) = &ctx.last_flight_records
+                                    && let Err(e) = self.conn.send_dtls_record_batch(records).await
+                                {
+                                    debug!("Failed to retransmit final flight: {}", e);
+                                }
                             }
                             continue;
                         }
